@@ -14,6 +14,7 @@ import TwProofs.Lemmas.EvalStep
 import TwProofs.Lemmas.TextEach
 import TwProofs.Lemmas.ScopeEval
 import TwProofs.Lemmas.TextAssignInt
+import TwProofs.Lemmas.TextAssignExpr
 
 namespace Tw.C04
 open Tw
@@ -439,5 +440,50 @@ example : ∃ line, evaluateStringPure [] (b "{{ name = 5 }}") [(b "name", .str 
     .fail (failOf "ErrVariableTypeMismatch" line [b "name", b "STRING", b "INTEGER"] []) :=
   assignment_of_another_type_is_refused_from_source [] [(b "name", .str (b "Ann"))] [[(b "name", .str (b "Ann"))]] (by rfl) (b "name") (by decide)
     (by decide) (.str (b "Ann")) (by rfl) (by decide) (b "5") (by decide) (by decide) [32] [32] [32] [32] (by decide) (by decide) (by decide) (by decide)
+
+/-- **the right-hand side of an assignment is a complete expression, and the assigned value is what a
+    later print shows, from the source bytes on** (C01's clause on assignments, C04's on visibility):
+    `{{ n = a op b }}{{ n }}` — a name that is not bound yet and is not `loop`, two integer literals, any
+    of the five arithmetic operators, any white space — renders the value of `a op b`: the assignment
+    takes the whole expression, prints nothing itself, and the print after it sees the new binding. -/
+theorem assigned_expression_is_visible_from_source (custom : List ((VType × Bytes) × Nat)) (data : List (Bytes × GoVal)) (env : Env)
+    (h : envFromMap data = .ok env) (n : Bytes) (hn : isName n) (hloop : (n == b "loop") = false) (hget : env.get n = none)
+    (a b' : Bytes) (ha : isDigits a) (hbd : isDigits b') (hba : digitsToNat a < 2 ^ 63) (hbb : digitsToNat b' < 2 ^ 63)
+    (c : Byte) (ty : TT) (pr : Nat) (hop : ArithOp c ty pr)
+    (g1 g2 g3 g4 g5 g6 h1 h2 : Bytes) (hg1 : allWs g1) (hg2 : allWs g2) (hg3 : allWs g3) (hg4 : allWs g4) (hg5 : allWs g5) (hg6 : allWs g6)
+    (hh1 : allWs h1) (hh2 : allWs h2) (v : Val)
+    (hv : ∀ line, intInfix [c] (Int64.ofNat (digitsToNat a)) (Int64.ofNat (digitsToNat b')) line = .ok v) :
+    evaluateStringPure custom (assignExprSrc g1 n g2 g3 a g4 c g5 b' g6 ++ ([123, 123] ++ h1 ++ n ++ h2 ++ [125, 125])) data = .ok v.toStr := by
+  obtain ⟨prog, t2, t4, t5, t6, t9, hp, hs⟩ := parse_assignExpr_source g1 n g2 g3 a g4 c ty pr g5 b' g6 h1 h2 hg1 hg2 hg3 hg4 hg5 hg6 hh1 hh2
+    hn ha hbd hop (by omega) (by omega)
+  -- the environment after the assignment
+  have hset : ∃ env', env.set n v = .ok env' := by
+    unfold Env.set
+    simp only [hloop, Bool.false_eq_true, if_false, hget]
+    exact ⟨_, rfl⟩
+  obtain ⟨env', hs'⟩ := hset
+  have hget' : env'.get n = some v := get_after_set env n v env' hs'
+  unfold evaluateStringPure envOrFail
+  rw [hp]
+  simp only [h, hs]
+  rw [show evalFuel = (evalFuel - 7) + 1 + 1 + 1 + 1 + 1 + 1 + 1 from by decide, evalProg_cons, evalStmt_succ]
+  simp only [stmtBody, calleesAt_expr]
+  simp only [evalExpr, infixOp, Val.type, hv, show (VType.INTEGER != VType.INTEGER) = false from by decide, Bool.false_eq_true, if_false,
+    Res.bind_ok, setVar, hs']
+  rw [evalProg_cons, evalStmt_succ]
+  simp only [stmtBody, calleesAt_expr]
+  simp only [evalExpr, hget', Res.bind_ok]
+  rw [evalProg_nil]
+  simp [resToOut]
+
+example : evaluateStringPure [] (b "{{ x = 2 * 21 }}{{ x }}") [] = .ok (b "42") := by
+  have := assigned_expression_is_visible_from_source [] [] [[]] (by rfl) (b "x") (by decide) (by decide) (by rfl)
+    (b "2") (b "21") (by decide) (by decide) (by decide) (by decide) 42 .MUL PRODUCT (Or.inl ⟨Or.inl ⟨rfl, rfl⟩, rfl⟩)
+    [32] [32] [32] [32] [32] [32] [32] [32] (by decide) (by decide) (by decide) (by decide) (by decide) (by decide) (by decide) (by decide)
+    (.int 42) (fun _ => by rfl)
+  have hs : assignExprSrc [32] (b "x") [32] [32] (b "2") [32] 42 [32] (b "21") [32] ++ ([123, 123] ++ [32] ++ b "x" ++ [32] ++ [125, 125]) =
+      b "{{ x = 2 * 21 }}{{ x }}" := by decide
+  rw [hs] at this
+  rw [this]; rfl
 
 end Tw.C04
